@@ -85,14 +85,21 @@ CLAIMED["C13"] = dict(
     text="Theorems about the model of formats.py/bk_wav.py: raw is the bytes; bin is base and length as little-endian words then the bytes "
          "(and refuses what does not fit); the WAV file parses, by an independent RIFF reader, as 8-bit mono PCM whose data chunk is exactly "
          "the pulse train, for every data length and rate; the stored checksum equals the BK-0010 end-around-carry sum for every block "
-         "(induction); bits are emitted LSB first (complete evaluation over all bytes); the tape header is base, length, 16-byte name; the "
-         "regenerated pulse shapes are read by the independent pulse detector as (sync, short)=0, (sync, long)=1, 8-sample marker, pilots. "
+         "(induction); bits are emitted LSB first; the tape header is base, length, 16-byte name; the regenerated pulse shapes are read by "
+         "the independent pulse detector as (sync, short)=0, (sync, long)=1, 8-sample marker, pilots. End to end, for EVERY image "
+         "(wav_roundtrip): the file encode_as_wav produces parses as 8-bit mono PCM and its data chunk demodulates - by the model of the "
+         "BK-0010 monitor's reading at normal speed (demodNormal_encode) and by the one-pulse-per-bit reading in turbo (demodTurbo_encode) - "
+         "to exactly the load address, length, padded name, image bytes and end-around-carry checksum. Proved through a general lemma that "
+         "the run-length detector reads any well-formed run list as one pulse per high run (pulses_runs), the run structure of the emitted "
+         "train (turbo_runs, normal_runs) and the logical layer of both formats (demodNormal_ideal_partial, demodTurbo_ideal_partial: "
+         "_partial because they speak about ideal pulse lists; the end-to-end theorems close the gap). "
          "Tie: file_formats on images incl. byte sums that are multiples of 65535 compared with the model (length + hash of the whole file), "
          "every WAV demodulated by the executable Lean BK-0010/turbo demodulator, every output selector and path form through main_cli.",
     design_ref="DESIGN.md §5 C13",
-    technique="Lean 4 theorems (induction, omega, decide +kernel on regenerated shapes) + whole-file model/implementation correspondence + executable Spec demodulator",
-    note=NOTE + "The general theorem demod(encode(image)) = image for all images is not proved (stage 2); the demodulator is executed on every "
-         "generated file instead. Path derivations are judged directly on CLI runs (os.path taken as given), not modelled in Lean.",
+    technique="Lean 4 theorems (induction over byte lists, bit lists and run lists, omega, decide +kernel on regenerated shapes) + whole-file model/implementation correspondence + executable Spec demodulator",
+    note=NOTE + "The demodulators are hand-written specifications (Spec/Tape.lean) of how a BK-0010 reads a tape; that a real machine's "
+         "comparator and monitor loop read the samples so is outside any proof. Path derivations are judged directly on CLI runs "
+         "(os.path taken as given), not modelled in Lean.",
 )
 
 CLAIMED["C19"] = dict(
@@ -178,7 +185,10 @@ CLAIMED["C02"] = dict(
          "model of .byte/.word/.dword/word list produces bytes without reporting an error they are exactly as many as announced "
          "(induction over operand lists). Part 2 (any sequence of statements): if every announced size is the length of the produced "
          "bytes then every statement's address is base + bytes before it, the image at that address is the statement's bytes, a label "
-         "gets the address of the following byte and the image length is the sum of the sizes (induction). Tie: the PDPY11_VERIF hook "
+         "gets the address of the following byte and the image length is the sum of the sizes (induction). Part 3 (on the block-layout "
+         "model of C16, where a statement is an arbitrary function of its address): the statement after any prefix is compiled at start + "
+         "bytes emitted by the prefix and its bytes lie exactly there, a label marks the next byte, the block's length is the sum of the "
+         "sizes measured at the addresses handed out (statement_sees_its_address, label_marks_next_byte, block_length). Tie: the PDPY11_VERIF hook "
          "trace checked model-free on generated programs (forward-known sizes, repeats, includes, inserted files, 1-3 files, random "
          "bases) and on the 21 practice programs; the same programs assembled by the whole-program Lean model (image, base, errors).",
     design_ref="DESIGN.md §5 C02",
@@ -226,7 +236,10 @@ CLAIMED["C11"] = dict(
          "binds in its own scope and is found first (local_binds_own_scope, own_definition_first); an exported name is found from "
          "every file exactly when neither the scope nor the file defines it (exported_visible); with no export and no own definition "
          "the lookup fails whatever other files define (invisible_elsewhere); a second definition of a qualified name is refused and "
-         "leaves the table unchanged (duplicate_reports); a fresh definition is found again (define_then_lookup). Tie: 'scope worlds' "
+         "leaves the table unchanged (duplicate_reports); a fresh definition is found again (define_then_lookup); over EVERY history of "
+         "definition attempts, accepted or refused: the keys stay pairwise distinct, a binding once made is the binding at every later "
+         "point, a definition changes the lookup of no other name, the first definition of a name is the one found ever after "
+         "(attempts_nodup, attempts_keep, attempt_other, first_definition_wins). Tie: 'scope worlds' "
          "(1-3 linked files, include trees of depth <= 3, one pool of 8 ordinary and 6 local names reused everywhere, every export "
          "form in every order, respelled references, one injected fault in 35% of the worlds) where the generator derives every "
          "binding, the whole image and the expected errors from the rules of the property; the same worlds through the whole-program "
